@@ -242,12 +242,18 @@ theorem url_encode_safe (s : List UInt8) (component : Bool) :
     · exact ih c hc
 
 
+/-- `Url::decode` on arbitrary text (malformed or truncated escapes anywhere): never longer than its input, so its
+    appends stay within what `String` reserves; a `%` in the last two positions reads at most the terminator -/
+theorem url_decode_total (s : List UInt8) : (urlDecode s).length ≤ s.length := by
+  fun_induction urlDecode s <;> simp_all <;> omega
+
 /-! ## query strings -/
 section Query
 open AslModel.Query
 
-/-- a `Dic<>` value: entries in strictly increasing key order (`String::operator<`, i.e. `strcmp`) -/
-def IsDic (d : Dict) : Prop := d.Pairwise fun a b => bytesLt a.1 b.1 = true
+/-- a `Dic<>` value: entries in strictly increasing key order under `String::operator<`, i.e. `strcmp`, which
+    compares the C strings (the bytes before the first NUL): two keys that differ only after a NUL are one key -/
+def IsDic (d : Dict) : Prop := d.Pairwise fun a b => strLt a.1 b.1 = true
 
 /-- every `Dic<>` built by assignments `d[k] = v` (in any order, with repeated keys) is such a value -/
 theorem dic_values_are_sorted (l : Dict) : IsDic (ofPairs l) := AslProofs.Query.ofPairs_sorted_any l
